@@ -104,6 +104,65 @@ Arguments sop : clear implicits.
 Arguments sobs : clear implicits.
 
 (* ------------------------------------------------------------------------- *)
+(** * 1b. Static output with a memory limit: the single entry lives in RAM or in a spill file
+    (output.py _pack 284-310: spill iff limit is set and 0 <= limit < total + size; total = 0 here) *)
+
+Definition spills (limit : option Z) (size : Z) : bool :=
+  match limit with
+  | Some l => (0 <=? l) && (l <? size)
+  | None => false
+  end.
+
+Section SOM.
+  Context {A : Type}.
+  (** [sm_data]: the entry and whether it was spilled to a file *)
+  Record soutm : Type := mkSM { sm_exch : bool; sm_data : option (A * bool) }.
+
+  Definition som_init : soutm := mkSM false None.
+  Definition som_erase (s : soutm) : sout A :=
+    mkSO (sm_exch s) (match sm_data s with Some (d, _) => Some d | None => None end).
+
+  Definition som_push (limit : option Z) (size : Z) (s : soutm) (d : A) : soutm * res unit :=
+    if negb (sm_exch s) then (s, Err ENoData)
+    else match sm_data s with
+         | Some _ => (s, Err EStatic)
+         | None => (mkSM true (Some (d, spills limit size)), Ok tt)
+         end.
+
+  (** [_unpack]: a spilled entry is read back *)
+  Definition som_get (s : soutm) (t : option Z) : res A :=
+    if negb (sm_exch s) then Err ENoData
+    else match sm_data s with
+         | None => Err ENoData
+         | Some (d, _) => Ok d
+         end.
+
+  Definition som_files (s : soutm) : nat :=
+    match sm_data s with Some (_, true) => 1%nat | _ => O end.
+
+  (** observation: result, number of spill files, number of target notifications so far;
+      [k] = number of targets, each notified once per accepted publication *)
+  Definition som_step (k : nat) (limit : option Z) (size : Z) (sn : soutm * nat) (o : sop A)
+    : (soutm * nat) * (sobs A * (nat * nat)) :=
+    let '(s, n) := sn in
+    match o with
+    | SExch => let s' := mkSM true (sm_data s) in ((s', n), (XNone, (som_files s', n)))
+    | SPush d => let '(s', r) := som_push limit size s d in
+                 let n' := match r with Ok _ => (n + k)%nat | Err _ => n end in
+                 ((s', n'), (XPush r, (som_files s', n')))
+    | SGet t => ((s, n), (XGet (som_get s t), (som_files s, n)))
+    end.
+
+  Fixpoint som_run (k : nat) (limit : option Z) (size : Z) (sn : soutm * nat) (ops : list (sop A))
+    : list (sobs A * (nat * nat)) :=
+    match ops with
+    | [] => []
+    | o :: r => let '(sn', x) := som_step k limit size sn o in x :: som_run k limit size sn' r
+    end.
+End SOM.
+Arguments soutm : clear implicits.
+
+(* ------------------------------------------------------------------------- *)
 (** * 2. Static input (Input(static=True)) in front of an arbitrary source *)
 
 Section SI.
@@ -543,17 +602,20 @@ Definition nobs_eqb (a b : nobs) : bool :=
 
 Inductive c20_case : Type :=
 | CaseSO (ops : list (sop nat))                                  (* one static output *)
+| CaseSOM (k : nat) (limit : option Z) (size : Z) (ops : list (sop nat))  (* ... with k targets and a memory limit *)
 | CaseSI (k : nat) (ops : list iop)                              (* k static inputs on a static output *)
 | CaseNet (net : list node) (cedges : list (edge * bool)) (ops : list nop).
 
 Inductive c20_obs : Type :=
 | ObsSO (l : list (sobs nat))
+| ObsSOM (l : list (sobs nat * (nat * nat)))
 | ObsSI (l : list (sobs nat * nat))
 | ObsNet (l : list nobs).
 
 Definition c20_model (c : c20_case) : c20_obs :=
   match c with
   | CaseSO ops => ObsSO (so_run so_init ops)
+  | CaseSOM k limit size ops => ObsSOM (som_run k limit size (som_init, O) ops)
   | CaseSI k ops => ObsSI (i_run (i_init k) ops)
   | CaseNet net ce ops => ObsNet (nrun net ce (net_init net ce) ops)
   end.
@@ -561,6 +623,7 @@ Definition c20_model (c : c20_case) : c20_obs :=
 Definition c20_obs_eqb (a b : c20_obs) : bool :=
   match a, b with
   | ObsSO x, ObsSO y => list_eqb sobs_eqb x y
+  | ObsSOM x, ObsSOM y => list_eqb (pair_eqb sobs_eqb (pair_eqb Nat.eqb Nat.eqb)) x y
   | ObsSI x, ObsSI y => list_eqb (pair_eqb sobs_eqb Nat.eqb) x y
   | ObsNet x, ObsNet y => list_eqb nobs_eqb x y
   | _, _ => false
